@@ -119,6 +119,12 @@ def run(repo, res, tier):
     from . import c11 as _c11
     _c11.lookup_rule(repo, res)
     c04.litlist(repo, res, c04.typer(repo))
+    # W5 compares the typed word with the *quoted* literal, and the walk steps over a word produced by an external command only if
+    # that word equals a candidate: both need the text in the script to read back as the grammar's text / the command's first
+    # tab field -- ENC for bash's encoder (shared with C07 / C04) and SK-CMD V4 for the top-level match site (shared with C17)
+    from . import c07 as _c07
+    _c07.enc_rule(repo, res, tier=tier, shells=("bash",))
+    sk_bash.cmd_rule(repo, res, tier, only="V4:top-level match")
     res.floor("PIPE", res.count("PIPE"), 4)
     res.floor("SK-WALK", res.count("SK-WALK"), 30)
     res.floor("SK-FB", res.count("SK-FB"), 14)
